@@ -586,6 +586,7 @@ var c18DHStorm = probe.Define("C18", "dh-storm", func(t *rapid.T) c18StormIn { p
 	old := runtime.GOMAXPROCS(in.Procs)
 	defer runtime.GOMAXPROCS(old)
 	errs := make([]string, in.Goroutines)
+	pubs := make([]string, in.Goroutines)
 	var wg sync.WaitGroup
 	start := make(chan struct{})
 	for g := 0; g < in.Goroutines; g++ {
@@ -619,6 +620,16 @@ var c18DHStorm = probe.Define("C18", "dh-storm", func(t *rapid.T) c18StormIn { p
 				if !bytes.Equal(pa, pa0) || !bytes.Equal(pb, pb0) {
 					return fmt.Errorf("a public value handed out earlier changed while other computations ran")
 				}
+				// and one key exchange set up the way NewIKESAKey does it: this SA's own, freshly drawn key pair
+				sa := newInfoSA(bridge.SuiteSel{DH: g % 2})
+				pub, shared, e := security.CalculateDiffieHellmanMaterials(sa, pa)
+				if e != nil {
+					return e
+				}
+				if len(pub) != n || len(shared) != n {
+					return fmt.Errorf("CalculateDiffieHellmanMaterials: wrong lengths")
+				}
+				pubs[g] = string(pub)
 				return nil
 			})
 			if err != nil {
@@ -632,6 +643,14 @@ var c18DHStorm = probe.Define("C18", "dh-storm", func(t *rapid.T) c18StormIn { p
 		if e != "" {
 			return probe.Fail("goroutine %d of %d (GOMAXPROCS %d): %s", g, in.Goroutines, in.Procs, e)
 		}
+	}
+	// unrelated SAs set up at the same time have unrelated key pairs: every locally generated public value is its own
+	seenPub := map[string]int{}
+	for g, p := range pubs {
+		if h, dup := seenPub[p]; dup && p != "" {
+			return probe.Fail("goroutines %d and %d (GOMAXPROCS %d) were handed the same Diffie-Hellman key pair for their unrelated SAs", h, g, in.Procs)
+		}
+		seenPub[p] = g
 	}
 	return probe.OK(true, "dh-storm", fmt.Sprintf("goroutines:%d", in.Goroutines))
 })
